@@ -168,6 +168,7 @@ INJECT = [
     ("native/input_column.rs", "src/ingest/input_column.rs", "verif_nat_input_column", ("native",)),
     ("native/partition_segment.rs", "src/disk_store/partition_segment.rs", "verif_nat_partition_segment", ("native",)),
     ("native/storage.rs", "src/disk_store/storage.rs", "verif_nat_storage", ("native",)),
+    ("native/query_task.rs", "src/engine/execution/query_task.rs", "verif_nat_query_task", ("native",)),
 ]
 
 
